@@ -83,60 +83,100 @@ class Occ:
         self.module, self.handler, self.consts = module, handler, consts
 
 
+def _candidate_names(repo, fi):
+    """String literals the importer (and the module-level tables it reads)
+    mentions: the finite domain its `name` argument is decided over."""
+    from .. import finite as FD
+    out = set()
+    m = fi.mod
+    g, _ = FD.module_literals(m.tree)
+
+    def strings(v):
+        if isinstance(v, str):
+            out.add(v)
+        elif isinstance(v, dict):
+            for k, x in v.items():
+                strings(k)
+                strings(x)
+        elif isinstance(v, (list, tuple, set, frozenset)):
+            for x in v:
+                strings(x)
+    for n in ast.walk(fi.node):
+        if isinstance(n, ast.Constant) and isinstance(n.value, str):
+            out.add(n.value)
+        if isinstance(n, ast.Name) and n.id in g:
+            strings(g[n.id])
+    return sorted(x for x in out if len(x) < 48 and '\n' not in x)
+
+
+def importer_table(repo, fi, extra_names=(), n_extra_args=2):
+    """Decide an `_import_*_correlation(name, ...)` dispatcher over the
+    finite set of names it can tell apart, with the checker's finite-domain
+    evaluator: -> {name: (nick, handler MemberRef, constants)} for the names
+    it accepts (every other candidate ends in sys.exit / an error)."""
+    from .. import finite as FD
+    m = fi.mod
+    g, funcs = FD.module_literals(m.tree)
+    table = {}
+    cands = sorted(set(_candidate_names(repo, fi)) | set(extra_names))
+    for nm in cands:
+        ev = FD.Evaluator(g, funcs)
+        args = [nm] + [FD.OPAQUE] * (len(fi.node.args.args) - 1)
+        if len(args) == 3:
+            args[2] = False         # warn: applicability warnings off
+        try:
+            kind, val, node = ev.call_function(fi.node, args)
+        except FD.Unsupported as e:
+            raise AnalysisError('%s(%r): dispatcher not evaluable over its '
+                                'name literals: %s' % (fi.name, nm, e))
+        if kind == 'raise':
+            continue
+        if not (isinstance(val, tuple) and len(val) == 3 and isinstance(
+                val[1], FD.MemberRef)):
+            raise AnalysisError('%s(%r): return shape %r' % (fi.name, nm,
+                                                             val))
+        table[nm] = val
+    return table
+
+
 def _slot_tables(ctx):
+    from .. import finite as FD
     repo = ctx.repo
     out = {}
     for slot, fn in SLOT_IMPORTERS.items():
         fi = repo.func('region_rodded', fn)
+        table = importer_table(repo, fi)
+        if len(table) < 2:
+            raise AnalysisError(fn + ': dispatch table not found')
+        groups = {}
+        for nm, (nick, handler, consts) in sorted(table.items()):
+            groups.setdefault((handler.module, handler.attr, nick,
+                               repr(consts)), []).append(nm)
         occs = []
-        # if / elif chain on `name in [...]`
-        chain = [s for s in fi.node.body if isinstance(s, ast.If)
-                 and 'name' in src(s.test)]
-        if not chain:
-            raise AnalysisError(fn + ': dispatch chain not found')
-        node = chain[0]
-        rets = [r for r in fi.node.body if isinstance(r, ast.Return)]
-        if len(rets) != 1 or not isinstance(rets[0].value, ast.Tuple):
-            raise AnalysisError(fn + ': return shape')
-        r_nick, r_func, r_const = rets[0].value.elts
-        tail_const = None
-        for s in fi.node.body:
-            if isinstance(s, ast.Assign) and src(s.targets[0]) == src(r_const):
-                tail_const = s.value
-        while isinstance(node, ast.If):
-            cp = U.compare_parts(node.test)
-            names = U.literal_list(cp[2]) if cp and cp[1] is ast.In else None
-            if names is None:
-                raise AnalysisError('%s: branch test %s' % (fn,
-                                                            src(node.test)))
-            alias = modname = nick = None
-            cexpr = tail_const
-            for s in node.body:
-                if isinstance(s, ast.Import):
-                    modname = s.names[0].name
-                    alias = s.names[0].asname
-                if isinstance(s, ast.Assign) and src(s.targets[0]) == \
-                        src(r_nick):
-                    nick = const(s.value)
-                if isinstance(s, ast.Assign) and src(s.targets[0]) == \
-                        src(r_const):
-                    cexpr = s.value
-            if modname is None or modname not in repo.modules:
-                raise AnalysisError('%s: branch %s imports no package module'
-                                    % (fn, names))
+        for (modname, hname, nick, _), names in groups.items():
+            consts = table[names[0]][2]
+            if modname not in repo.modules:
+                raise AnalysisError('%s: names %s import no package module '
+                                    '(%s)' % (fn, names, modname))
             m = repo.modules[modname]
-            hname = r_func.attr if isinstance(r_func, ast.Attribute) else None
             if hname not in m.funcs:
                 raise AnalysisError('%s has no %s()' % (modname, hname))
             cfun = None
-            if cexpr is not None and const(cexpr, 0) is not None:
-                cn = call_name(cexpr) or ''
-                cfun = m.funcs.get(cn.split('.')[-1])
+            if consts is not None:
+                if not isinstance(consts, FD.CallRef):
+                    raise AnalysisError('%s: constants %r' % (fn, consts))
+                cm = repo.modules.get(consts.member.module)
+                cfun = cm.funcs.get(consts.member.attr) if cm else None
                 if cfun is None:
-                    raise AnalysisError('%s: constants %s' % (fn, src(cexpr)))
+                    raise AnalysisError('%s: constants %r' % (fn, consts))
+            if not isinstance(nick, str):
+                raise AnalysisError('%s: nickname for %s is %r'
+                                    % (fn, names, nick))
             occs.append(Occ(slot, nick, names, m, m.funcs[hname], cfun))
-            node = node.orelse[0] if len(node.orelse) == 1 and isinstance(
-                node.orelse[0], ast.If) else None
+        # (stable order: by the position of the module's first mention)
+        text = ast.unparse(fi.node)
+        occs.sort(key=lambda o: (text.find(o.module.name.rsplit('.', 1)[-1]
+                                           .split('_', 1)[-1]), o.nick))
         out[slot] = (fi, occs)
     return out
 
